@@ -49,6 +49,8 @@ func runC17(c *core.Ctx) {
 	c.Rule("R6", "listener channel capacity ≥ longest transition chain", 1)
 	c.Rule("R7", "failure cause overwritten by the stopping error only when nil", 1)
 	c.Rule("R8", "manager state decision table and healthy latch", 3)
+	c.Rule("R9", "StopAsync cancels on the result of the atomic switch (a racing start is not lost)", 1)
+	c.Rule("R10", "failure fan-in: every failure report is delivered with a blocking send", 1)
 	pkg := c.Prog.Pkg("services")
 	if pkg == nil {
 		c.Miss("R1", "pkg=services", "not loaded")
@@ -157,6 +159,8 @@ func runC17(c *core.Ctx) {
 	c17Capacity(c, pkg)
 	// ---- R8 manager
 	c17Manager(c, pkg)
+	c17StopAsync(c, pkg, trans)
+	c17FailureWatcher(c, pkg)
 }
 
 func fieldOf(t *types.Named, name string) *types.Var {
@@ -694,4 +698,173 @@ func c17Locks(c *core.Ctx, pkg *packages.Package, bs, mg *types.Named) {
 		}
 		c.Hold("R5", "mutex="+gd.Type.Obj().Name()+"."+gd.Mutex, pkg.Syntax[0].Pos(), fmt.Sprintf("%d accesses to %v, all with %s held (helpers with inferred requires-lock summaries: %v)", n, gd.Fields, gd.Mutex, rep.Requires), n)
 	}
+}
+
+// c17StopAsync (R9): the decision to cancel is taken on the result of the atomic New→Terminated switch, not on an earlier
+// unlocked read of the state: when that switch did not happen, serviceCancel() is reached on every path.
+func c17StopAsync(c *core.Ctx, pkg *packages.Package, trans []c17Transition) {
+	var fn *an.Fn
+	for _, f := range an.Funcs(pkg) {
+		if f.Name == "(*BasicService).StopAsync" {
+			fn = f
+		}
+	}
+	if fn == nil {
+		c.Miss("R9", "func=BasicService.StopAsync", "not found")
+		return
+	}
+	c.Analysed(fn.String())
+	g := fn.Graph()
+	var sw *c17Transition
+	for i := range trans {
+		if trans[i].in == fn && trans[i].to == "Terminated" {
+			sw = &trans[i]
+		}
+	}
+	var cancel *ast.CallExpr
+	fn.InspectShallow(func(n ast.Node) bool {
+		if call, ok := n.(*ast.CallExpr); ok && fn.Canon(call.Fun) == "recv.serviceCancel" {
+			cancel = call
+		}
+		return true
+	})
+	if sw == nil || cancel == nil {
+		c.Viol("R9", "StopAsync:cancel-on-failed-switch", fn.Pos(), "StopAsync must attempt the New→Terminated switch and cancel the service context when it did not happen")
+		return
+	}
+	stmt := stmtOf(fn, sw.call.Expr)
+	t := an.Table{G: g, From: g.Locate(stmt), Atoms: []an.Atom{{Name: "switched", Values: []string{"T", "F"}}},
+		Binder: &an.Binder{Fn: fn, Re: []an.ReRole{an.RE(`^recv\.switchState\(.*\)#0$`, "SWITCHED")}, Bool: map[string]string{"SWITCHED": "switched"}},
+		Targets: []an.Loc{g.Locate(cancel)}, Names: []string{"serviceCancel()"},
+		Want: func(r an.Row, _ int) an.Tri { return an.FromBool(r["switched"] == "F") }}
+	res := t.Run()
+	// the switch attempt itself must not be gated on a previous read of the state being New
+	var stateReads []string
+	bdAny := func(state string) an.Leaf {
+		return func(e ast.Expr, st an.Store) an.Tri {
+			if be, ok := an.Unparen(e).(*ast.BinaryExpr); ok && (be.Op == token.EQL || be.Op == token.NEQ) {
+				x, y := fn.CanonSt(be.X, st), fn.ConstName(be.Y)
+				if strings.HasSuffix(x, "recv.State()") && y != "" {
+					v := an.FromBool(y == state)
+					if be.Op == token.NEQ {
+						v = an.Not(v)
+					}
+					return v
+				}
+			}
+			return an.U
+		}
+	}
+	gated := []string{}
+	for _, s := range []string{"New", "Starting", "Running"} {
+		ex := g.Exec(g.EntryLoc(), []an.Loc{g.Locate(sw.call.Expr)}, bdAny(s), an.ExecOpts{})
+		if !ex.Must[0] {
+			gated = append(gated, s)
+		}
+	}
+	_ = stateReads
+	c.Check(res.OK() && len(gated) == 0, "R9", "StopAsync:cancel-on-failed-switch", sw.call.Expr.Pos(), fmt.Sprintf("serviceCancel() executes ⇔ the atomic New→Terminated switch reported false (%s); the switch is attempted for every non-terminal state read before (not attempted when the earlier read said: %v) — a start racing with the stop cannot be lost", res.Summary(), gated), res.Rows+3)
+}
+
+// c17FailureWatcher (R10): every failure callback registered by the FailureWatcher delivers its report with a blocking send
+// (on every path, not inside a select with a default case), directly or through a helper.
+func c17FailureWatcher(c *core.Ctx, pkg *packages.Package) {
+	fw := an.LookupType(pkg, "FailureWatcher")
+	if fw == nil {
+		c.Miss("R10", "type=FailureWatcher", "not found")
+		return
+	}
+	chF := fieldOf(fw, "ch")
+	if chF == nil {
+		c.Miss("R10", "field=FailureWatcher.ch", "not found")
+		return
+	}
+	// sends on the channel anywhere in the package
+	type sendInfo struct {
+		fn       *an.Fn
+		stmt     *ast.SendStmt
+		droppable bool
+		must     bool
+	}
+	var sends []sendInfo
+	for _, f := range an.Funcs(pkg) {
+		for _, lf := range append([]*an.Fn{f}, f.AllLits()...) {
+			lf.InspectShallow(func(n ast.Node) bool {
+				s, ok := n.(*ast.SendStmt)
+				if !ok || !an.FieldSel(lf.Info(), s.Chan, chF) {
+					return true
+				}
+				si := sendInfo{fn: lf, stmt: s}
+				// inside a select with default?
+				lf.InspectShallow(func(m ast.Node) bool {
+					if sel, ok := m.(*ast.SelectStmt); ok && an.InNode(sel, s) {
+						for _, cl := range sel.Body.List {
+							if cl.(*ast.CommClause).Comm == nil {
+								si.droppable = true
+							}
+						}
+						if len(sel.Body.List) > 1 {
+							// another ready case could win: only acceptable if that case is shutdown of the watcher; be conservative
+							si.droppable = true
+						}
+					}
+					return true
+				})
+				lg := lf.Graph()
+				loc := lg.Locate(s)
+				if loc.Valid() {
+					ex := lg.Exec(lg.EntryLoc(), []an.Loc{loc}, func(ast.Expr, an.Store) an.Tri { return an.U }, an.ExecOpts{})
+					si.must = ex.Must[0]
+				}
+				sends = append(sends, si)
+				return true
+			})
+		}
+	}
+	bad := []string{}
+	for _, s := range sends {
+		if s.droppable {
+			bad = append(bad, c.Prog.PosStr(s.stmt.Pos())+": report sent inside a select that can skip it")
+		}
+		if !s.must {
+			bad = append(bad, c.Prog.PosStr(s.stmt.Pos())+": report not sent on every path of "+s.fn.Name)
+		}
+	}
+	// each Watch* method registers a callback that sends (directly or via a helper containing a send)
+	nCb := 0
+	for _, name := range []string{"FailureWatcher.WatchService", "FailureWatcher.WatchManager"} {
+		f := an.FindFunc(pkg, name)
+		if f == nil {
+			c.Miss("R10", "func="+name, "not found")
+			continue
+		}
+		c.Analysed(f.String())
+		delivers := false
+		for _, lf := range f.AllLits() {
+			for _, s := range sends {
+				if s.fn == lf {
+					delivers = true
+				}
+			}
+			for _, call := range lf.Calls(false) {
+				if cf := call.Func(); cf != nil && cf.Pkg() == pkg.Types {
+					for _, s := range sends {
+						if s.fn.Root().Obj == cf {
+							lg := lf.Graph()
+							ex := lg.Exec(lg.EntryLoc(), []an.Loc{lg.Locate(call.Expr)}, func(ast.Expr, an.Store) an.Tri { return an.U }, an.ExecOpts{})
+							if ex.Must[0] {
+								delivers = true
+							}
+						}
+					}
+				}
+			}
+		}
+		if delivers {
+			nCb++
+		} else {
+			bad = append(bad, name+": the registered failure callback does not deliver a report")
+		}
+	}
+	c.Check(len(bad) == 0 && len(sends) >= 1 && nCb == 2, "R10", "failure-watcher:delivery", pkg.Syntax[0].Pos(), fmt.Sprintf("%d send(s) on the failure channel, each blocking and on every path; both Watch* callbacks deliver; problems: %v", len(sends), bad), len(sends)+2)
 }
